@@ -269,6 +269,9 @@ def run_one(tape):
               seen[k] = ('val', conf[k])
             except Exception as e:  # pylint: disable=broad-except
               seen[k] = ('exc', type(e).__name__)
+          # (a snapshot taken while the temporary values are in force, as Test.execute does for
+          # the record's metadata)
+          seen['__asdict__'] = ('snap', dict(conf._asdict()))   # pylint: disable=protected-access
           if raises:
             raise ValueError('wrapped function failed')
           return 'ret'
@@ -305,6 +308,15 @@ def run_one(tape):
         if not raises:
           viols.append({'clause': 'wrapped_function_result', 'details': {'raises': raises}})
           break
+      snap_in = (seen.get('__asdict__') or (None, {}))[1]
+      for k in KEYS:
+        w = expect_inside[k]
+        if k in model.decl and w[0] == 'val' and (k not in snap_in or not _same(snap_in[k], w[1])):
+          viols.append({'clause': 'snapshot_inside_wrapped_function', 'details': {'key': k, 'got': repr(snap_in.get(k, '<absent>'))[:50],
+                                                                                 'want': repr(w[1])[:50]}})
+          break
+      if viols:
+        break
       for k in KEYS:
         g, w = seen.get(k), expect_inside[k]
         if g is None or g[0] != w[0] or (g[0] == 'val' and not _same(g[1], w[1])) or (g[0] == 'exc' and g[1] != w[1]):
